@@ -25,7 +25,24 @@ let stat st key =
         | _ -> go r) in
   go (String.split_on_char ',' st)
 
+
+(* ---- size validation: a hand-written / replayed line must not make the driver build huge lists
+   (nrange over a port range, List.init over nr_shards, 2^msb): every numeric field is bounded BEFORE
+   it reaches the model; out of bounds = not a case of this check ---- *)
+let is_hex s = s <> "" && String.length s <= 16 &&
+               (let ok = ref true in String.iter (fun c -> match c with '0'..'9' | 'a'..'f' | 'A'..'F' -> () | _ -> ok := false) s; !ok)
+(* unsigned hex field with value <= maxv (maxv < 2^31) *)
+let small maxv s = is_hex s && String.length s <= 8 && int_of_string ("0x" ^ s) <= maxv
+let small_list maxv maxlen s =
+  s = "-" || (String.length s <= 9 * maxlen && (let l = String.split_on_char ',' s in List.length l <= maxlen && List.for_all (small maxv) l))
+let signed_hex s = let b = if String.length s > 0 && s.[0] = '-' then String.sub s 1 (String.length s - 1) else s in is_hex b
+let e_sizes_ok n nodes per lo hi planned sa pl pre busy =
+  small 64 n && n <> "0" && small 16 nodes && small 16 per && small 65535 lo && small 65535 hi &&
+  int_of_string ("0x" ^ hi) - int_of_string ("0x" ^ lo) < 4096 && small_list 0xffffffff 4096 planned &&
+  List.for_all (fun s -> String.length s <= 64 * 1024) [sa; pl; pre; busy]
+
 let verdict_e n nodes per lo hi planned sa pl pre busy rq st =
+  if not (e_sizes_ok n nodes per lo hi planned sa pl pre busy) then "error unknown-case" else
   let n = n_of_hex n and lo = n_of_hex lo and hi = n_of_hex hi in
   let nodes = int_of_n (n_of_hex nodes) and per = int_of_n (n_of_hex per) in
   let planned = nlist_of_string planned in
@@ -36,6 +53,10 @@ let verdict_e n nodes per lo hi planned sa pl pre busy rq st =
       | [nd; port; shard] -> (int_of_n nd, port, shard) | _ -> failwith "sa entry") (split_on ',' sa) in
   let pl = if pl = "-" then [] else List.map (fun t -> match dotted t with
       | [nd; shard] -> (int_of_n nd, shard) | _ -> failwith "pl entry") (split_on ',' pl) in
+  if List.length sa > 4096 || List.length pl > 4096 then "error unknown-case" else
+  (* more than 4 ports busy from outside (observed: 1-2, TIME_WAIT of an earlier scenario on a reused client
+     address): the count interval would be too wide to say anything - the scenario is not judged (counted and capped) *)
+  if List.length busy > 4 then "ok not-run outside-busy-ports" else
   if List.exists (fun p -> not (List.mem p planned)) pre then "error harness pre-bound port that was not planned"
   else if List.exists (fun p -> List.mem p pre) busy then "error harness busy port that is held"
   else if List.exists (fun (nd, _, _) -> nd >= nodes) sa || List.exists (fun (nd, _) -> nd >= nodes) pl then "error harness node index"
@@ -95,11 +116,12 @@ let verdict_e n nodes per lo hi planned sa pl pre busy rq st =
                 let lo_cnt = int_of_nat lo_n and hi_cnt = int_of_nat hi_n in
                 let got = List.length (List.filter (fun (_, _, s') -> s' = s) sa) in
                 pred := !pred + hi_cnt;
-                if List.exists (fun p -> List.mem p pre || List.mem p busy) (spec_ports n s lo hi) then skp := !skp + got;
+                (* the statistics behind the floors count only shards whose interval is a point (not widened by busy=) *)
+                if lo_cnt = hi_cnt && List.exists (fun p -> List.mem p pre || List.mem p busy) (spec_ports n s lo hi) then skp := !skp + got;
                 (* per mille: chance that the FIRST run for this shard draws a pivot on a held port although a free
                    one exists, i.e. that a loop giving up at the first busy port opens fewer connections than the model *)
                 (let k = List.length (spec_ports n s lo hi) and f = List.length (free_ports n s lo hi pre) in
-                 if runs > 0 && f > 0 && k > 0 then pwr := !pwr + 1000 * (k - f) / k);
+                 if lo_cnt = hi_cnt && runs > 0 && f > 0 && k > 0 then pwr := !pwr + 1000 * (k - f) / k);
                 if got < lo_cnt || got > hi_cnt then
                   off := Printf.sprintf "shard=%s,got=%d,model=%d..%d" (hex_of_n s) got lo_cnt hi_cnt :: !off) shards;
             match !off with
@@ -111,6 +133,10 @@ let verdict case impl =
   match case, impl with
   (* a panic of the implementation inside the quantifier is a property failure, not a mismatch *)
   | (("S" | "I" | "D" | "P") :: _), ["panic"] -> "viol implementation-panicked"
+  | ["S"; n; msb; t], [obs] when not (small 65535 n && n <> "0" && small 255 msb && signed_hex t && small 0xffffffff obs) -> "error unknown-case"
+  | ["I"; n; s; lo; hi], [obs] when not (small 65535 n && n <> "0" && small 0xffffffff s && small 65535 lo && small 65535 hi && small_list 0xffffffff 70000 obs) -> "error unknown-case"
+  | ["D"; n; s; lo; hi], [obs] when not (small 65535 n && n <> "0" && small 0xffffffff s && small 65535 lo && small 65535 hi && (obs = "none" || small 0xffffffff obs)) -> "error unknown-case"
+  | ["P"; n; port], [obs] when not (small 65535 n && n <> "0" && small 65535 port && small 0xffffffff obs) -> "error unknown-case"
   | ["S"; n; msb; t], [obs] ->
     let n = n_of_hex n and msb = n_of_hex msb and t = z_of_hex t in
     let m = shard_of n msb t in
